@@ -168,6 +168,8 @@ def _classify_pos_write_base(f, store, stmt):
                 return 'match-end'
         return 'unrecognised'
     val = stmt.value
+    if isinstance(val, ast.Name) and val.id in _plain_aliases(f):
+        val = _plain_aliases(f)[val.id]          # `end = pos + len(bs)` ... `self._pos = end`
     if isinstance(stmt.targets[0], ast.Tuple):
         if _checked_after(f, stmt):
             return 'checked-after'
@@ -798,6 +800,7 @@ def rule_SELFOP(ctx):
     E = get_effects(ctx)
     r = RuleResult('SELFOP', 'an operand that may be the receiver itself is not read again after the receiver has been changed')
     n = 0
+    n_mut = 0
     for c in ('BitStream',):
         for name, f in sorted(m.classes[c].methods.items()):
             node = ctx.node(f, c)
@@ -821,9 +824,11 @@ def rule_SELFOP(ctx):
                     break
             if first is None:
                 continue
+            n_mut += 1
             for op in sorted(ops):
                 later = [y for s in body[first + 1:] for y in ast.walk(s) if isinstance(y, ast.Name) and y.id == op and isinstance(y.ctx, ast.Load)]
                 if not later:
+                    r.ok(f'{f.key}:{op}', {'instance': f.key, 'operand': op, 'verdict': 'not read again after the first effect on self'})
                     continue
                 n += 1
                 decoupled = False
@@ -843,6 +848,6 @@ def rule_SELFOP(ctx):
                     r.fail(f.key, f'{name}: {op} read after self was changed', f"{c}.{name} reads its operand '{op}' after it has changed self, without first "
                            f"replacing it by a copy when `{op} is self`: for s.{name}(s, ...) the value read (e.g. len({op})) is that of the already "
                            'changed object, so the position ends up beyond the written bits', loc=f.loc(later[0]))
-    if n < 2:
-        raise AnalysisError(f'only {n} operand reads after an effect found in the stream mutators (insert and overwrite expected)')
+    if n_mut < 2:
+        raise AnalysisError(f'only {n_mut} stream mutators with a bitstring operand and an effect found (insert and overwrite expected)')
     return r
